@@ -6,7 +6,59 @@ LOOKUP_NEW = 'schema::union_variants_per_type_lookup::PerTypeLookup::new'
 KEY_ADT = 'schema::union_variants_per_type_lookup::UnionVariantLookupKey'
 
 
+def key_tables(facts):
+    """Constant capability tables: constants whose initialiser is an array of (lookup key, priority) tuples.
+    Read from the constant's own MIR (promoted array aggregate); name-independent."""
+    out = {}
+    for x in facts.j['bodies']:
+        if x.get('kind') != 'const' and x['id'] not in facts.consts:
+            continue
+        table = {}
+        shape_ok = False
+        for blocks in x.get('promoted') or []:
+            loc = {}
+            for bl in blocks:
+                for st in bl.get('stmts', []):
+                    rv = st.get('rv') or {}
+                    l = (st.get('assign') or {}).get('l')
+                    if rv.get('k') != 'agg' or l is None:
+                        continue
+                    if rv.get('agg') == 'adt' and rv.get('adt') == KEY_ADT:
+                        loc[l] = ('key', rv.get('variant'))
+                    elif rv.get('agg') == 'tuple' and len(rv.get('ops', [])) == 2:
+                        a, c = rv['ops']
+                        src = (a.get('move') or a.get('copy') or {}).get('l')
+                        pr = ((c.get('const') or {}).get('val') or {}).get('int')
+                        if src in loc and loc[src][0] == 'key':
+                            loc[l] = ('pair', loc[src][1], pr)
+                    elif rv.get('agg') == 'array':
+                        shape_ok = True
+                        for o in rv.get('ops', []):
+                            src = (o.get('move') or o.get('copy') or {}).get('l')
+                            if src in loc and loc[src][0] == 'pair':
+                                k, pr = loc[src][1], loc[src][2]
+                                table[k] = pr if table.get(k, pr) == pr else None
+                            else:
+                                shape_ok = False
+        if table and shape_ok:
+            out[x['id']] = table
+    return out
+
+
+def _named_consts(x, acc):
+    if isinstance(x, dict):
+        c = x.get('const')
+        if isinstance(c, dict) and c.get('named'):
+            acc.add(c['named'])
+        for v in x.values():
+            _named_consts(v, acc)
+    elif isinstance(x, list):
+        for v in x:
+            _named_consts(v, acc)
+
+
 def registrations(facts):
+    tables = key_tables(facts)
     b = None
     for x in facts.body_list:
         if fn_label(x) == LOOKUP_NEW:
@@ -20,6 +72,15 @@ def registrations(facts):
             ent = out.setdefault(kind, {'keys': {}, 'type_names': set(), 'named': False, 'loc': None})
         for bb in sorted(r.blocks):
             t = b.term(bb)
+            if tables and not b.is_cleanup(bb):
+                # data-driven registration: a constant (key, priority) table handed over in this kind's arm
+                named = set()
+                _named_consts(b.blocks[bb], named)
+                for nm in named & set(tables):
+                    for kind in r.variants:
+                        out[kind]['loc'] = out[kind]['loc'] or t.get('span')
+                        for k, pr in tables[nm].items():
+                            out[kind]['keys'][k] = pr
             if t['k'] != 'call' or b.is_cleanup(bb):
                 continue
             res = t.get('resolved') or ''
